@@ -14,11 +14,20 @@
    behaviour, exceptions, shapes) over a finite configuration grammar; it is decided by exhaustive
    enumeration of that grammar in harness/c04.py (quick tier: covering sample, thorough tier: full grid),
    not by a theorem.  The property is therefore claimed as: coherence = proof, no-raise = enumeration.
-   The tie between these models and /repo is the correspondence of harness/c04.py (extracted model run on
-   the fitted parameters of real fits). *)
-From Coq Require Import Reals Lra Lia List Arith String.
+   The tie between these models and /repo is (i) the correspondence of harness/c04.py (extracted model run on
+   the fitted parameters of real fits) and (ii) the REGENERATED tie of the second half of this file: the bodies of
+   fit (before / after its training loop), fit_predict, predict_proba, predict, score, KernelRIM's and the sparse
+   models' overrides and the tail of Kauri.fit / Kauri.predict / Kauri.score are re-translated from /repo on
+   every build by translator/tr_coherence.py into Gen/CoherenceRules.v; the C04_regenerated_* theorems state
+   that interpreting those regenerated bodies yields exactly the hand-written relations the theorems above are
+   about.  What stays tied by correspondence only: the _infer forward passes (Model/Forward.v), the training
+   loop (C03/C10), the GEMINI and its affinity (C01/C11), and the meaning given to the library calls
+   check_array / validate_data / check_is_fitted (identity / no-op on valid finite data). *)
+From Coq Require Import Reals Lra Lia List Bool Arith String ZArith.
 From GV Require Import Common.Num Common.NumR Model.Forward Model.Coherence Proofs.RSumLib Proofs.Coherence.
+From GV Require Import Model.CoherenceSyntax Model.CoherenceInterp Gen.CoherenceRules Proofs.CoherenceGen.
 From GV Require Model.KauriTree Proofs.KauriTree.
+Import ListNotations.
 Open Scope R_scope.
 
 (* softmax: for every K >= 1 and all real logits every entry is > 0 and the row sums to 1 *)
@@ -110,6 +119,144 @@ Theorem C04_kauri_labels_lt_max_clusters :
   (1 <= List.length (GV.Model.KauriTree.st_tree st))%nat.
 Proof. exact kauri_labels_lt_max_clusters. Qed.
 
+(* ================================================================ the regenerated tie ================================================================
+   Setting: any number system o, K, fitted parameters p, hyper-parameters h (max_iter, solver, learning_rate, n_clusters), the
+   estimator's GEMINI as a function `gemini` with affinity function `affinity`, KernelRIM's kernel against the training data
+   `kern`.  run_* interpret the bodies regenerated from /repo (Model/CoherenceInterp.v); VMat d X is a data matrix with d columns. *)
+
+(* predict_proba, predict, score of DiscriminativeModel (all estimators but KernelRIM's predict_proba, see the resolution table) *)
+Theorem C04_regenerated_predict_chain : forall (T A : Type) (o : NumOps T) K (p : params) (h : hyper) (gemini : @Mat T -> A -> T) affinity kern ntrain d X y,
+  run_predict_proba o K p h gemini affinity kern ntrain base_predict_proba (VMat d X) = VMat K (predict_proba o K p X) /\
+  run_predict o K p h gemini affinity kern ntrain base_predict_proba base_predict (VMat d X) = VLabels (predict o K p X) /\
+  run_score o K p h gemini affinity kern ntrain base_predict_proba base_score (VMat d X) y = VNum (score o gemini affinity K p X).
+Proof. intros. split; [apply gen_predict_proba | split; [apply gen_predict | apply gen_score]]. Qed.
+
+(* KernelRIM: the overridden predict_proba feeds k(X, X_train) to the forward pass; the inherited predict / score see the override *)
+Theorem C04_regenerated_kernelrim_predict_chain : forall (T A : Type) (o : NumOps T) K (p : params) (h : hyper) (gemini : @Mat T -> A -> T) affinity kern ntrain d X y,
+  run_predict_proba o K p h gemini affinity kern ntrain krim_predict_proba (VMat d X) = VMat K (predict_proba o K p (kern X)) /\
+  run_predict o K p h gemini affinity kern ntrain krim_predict_proba base_predict (VMat d X) = VLabels (predict o K p (kern X)) /\
+  run_score o K p h gemini affinity kern ntrain krim_predict_proba base_score (VMat d X) y = VNum (gemini (predict_proba o K p (kern X)) (affinity X)).
+Proof. intros. split; [apply gen_krim_predict_proba | split; [apply gen_krim_predict | apply gen_krim_score]]. Qed.
+
+(* fit: what it leaves behind (p = the parameters the training loop ended with), how many epochs it runs, what the loop trains on *)
+Theorem C04_regenerated_fit : forall (T A : Type) (o : NumOps T) K (p : params) (h : hyper) (gemini : @Mat T -> A -> T) affinity kern ntrain d X y,
+  let st := run_fit o K p h gemini affinity kern ntrain base_fit_pre base_fit_post (VMat d X) y in
+  attr_after "labels_" st = VLabels (fit_labels o K p X) /\
+  attr_after "n_iter_" st = VNat (n_iter (h_max_iter h)) /\
+  attr_after "optimiser_" st = VOptim (fst (optimiser_init (h_solver h) (h_lr h))) VWeights (VNum (snd (optimiser_init (h_solver h) (h_lr h)))) /\
+  returned st = VSelf /\
+  run_epochs o K p h gemini affinity kern ntrain base_fit_epochs = VRange (epochs_run (h_max_iter h)) /\
+  map (fun nv => (fst nv, eval o (world0 o K p h gemini affinity kern ntrain) (env2 (VMat d X) y) [] (snd nv))) base_fit_loop_reads =
+    [("X", VMat d X); ("affinity", VAff (affinity X)); ("random_state", VRng); ("gemini", VGem); ("weights", VWeights)]%string /\
+  run_fit_predict o K p h gemini affinity kern ntrain (fit_store o K p h gemini affinity kern ntrain base_fit_pre base_fit_post) base_fit_predict (VMat d X) y
+    = VLabels (fit_predict o K p X).
+Proof.
+  intros. destruct (gen_fit o K p h gemini affinity kern ntrain d X y) as (H1 & H2 & H3 & H4).
+  split; [exact H1|]. split; [exact H2|]. split; [exact H3|]. split; [exact H4|].
+  split; [rewrite gen_fit_epochs, epochs_run_id; reflexivity|].
+  split; [apply gen_fit_loop_reads | apply gen_fit_predict].
+Qed.
+
+(* KernelRIM.fit trains the base model on the training kernel; the sparse models' fit delegates to the base fit on the same data *)
+Theorem C04_regenerated_wrapped_fits : forall (T A : Type) (o : NumOps T) K (p : params) (h : hyper) (gemini : @Mat T -> A -> T) affinity kern ntrain d X y,
+  let FS := fit_store o K p h gemini affinity kern ntrain base_fit_pre base_fit_post in
+  (let st := run_subfit o K p h gemini affinity kern ntrain FS krim_fit (VMat d X) y in
+   attr_after "input_data_" st = VMat d X /\ attr_after "training_kernel_" st = VMat ntrain (kern X) /\
+   attr_after "labels_" st = VLabels (fit_labels o K p (kern X)) /\ attr_after "n_iter_" st = VNat (n_iter (h_max_iter h)) /\
+   attr_after "optimiser_" st = VOptim (optimiser_of (h_solver h)) VWeights (VNum (h_lr h)) /\
+   attr_after "n_features_in_" st = VNat d /\ returned st = VSelf) /\
+  run_fit_predict o K p h gemini affinity kern ntrain (fun X y => cs_store (run_subfit o K p h gemini affinity kern ntrain FS krim_fit X y)) base_fit_predict (VMat d X) y
+    = VLabels (fit_predict o K p (kern X)) /\
+  (forall body, body = sparse_linear_fit \/ body = sparse_mlp_fit ->
+   let st := run_subfit o K p h gemini affinity kern ntrain FS body (VMat d X) y in
+   attr_after "labels_" st = VLabels (fit_labels o K p X) /\ attr_after "n_iter_" st = VNat (n_iter (h_max_iter h)) /\
+   attr_after "optimiser_" st = VOptim (optimiser_of (h_solver h)) VWeights (VNum (h_lr h)) /\
+   attr_after "groups_" st = VNone /\ returned st = VSelf).
+Proof.
+  intros. split; [apply gen_krim_fit | split; [apply gen_krim_fit_predict | intros body Hb; apply gen_sparse_fit; exact Hb]].
+Qed.
+
+(* Kauri: labels_ = (Y @ Z).argmax(0) and leaves_ = Z.argmax(0) are the label_of / leaf_of of the C09 model, predict is the tree's
+   predict on the checked data, score is the kernel objective of predict's output, fit_predict returns the labels_ fit wrote *)
+Theorem C04_regenerated_kauri : forall (T : Type) (o : NumOps T) (P : GV.Model.KauriTree.params) X st Kk (ker : GV.Model.KauriTree.data -> nat -> nat -> T) t X' y,
+  (let s := run_kauri_tail (A:=unit) o P X st kauri_fit_tail in
+   attr_after "labels_" s = VNVec (List.length X) (GV.Model.KauriTree.label_of P X st) /\
+   attr_after "leaves_" s = VNVec (List.length X) (GV.Model.KauriTree.leaf_of P X st) /\ returned s = VSelf) /\
+  run_kauri_predict (A:=unit) o ker t kauri_predict X' = VPreds (GV.Model.KauriTree.predict t X') /\
+  run_kauri_score (A:=unit) o Kk ker t kauri_predict kauri_score X' y =
+    VNum (GV.Model.KauriTree.objective o (List.length (GV.Model.KauriTree.predict t X')) Kk (ker X')
+            (fun i => match nth i (GV.Model.KauriTree.predict t X') None with Some c => c | None => Kk end)).
+Proof. intros. split; [apply gen_kauri_fit_tail | split; [apply gen_kauri_predict | apply gen_kauri_score]]. Qed.
+
+(* which class's body each estimator runs (regenerated class table): predict / score / fit_predict are DiscriminativeModel's for all
+   17 gradient estimators, predict_proba too except KernelRIM's own, fit is wrapped by KernelRIM and the sparse families only *)
+Theorem C04_regenerated_method_resolution :
+  forallb (fun c => match res c "predict", res c "score", res c "fit_predict" with
+                    | Some a, Some b, Some c' => String.eqb a "DiscriminativeModel" && String.eqb b "DiscriminativeModel" && String.eqb c' "DiscriminativeModel"
+                    | _, _, _ => false end) gradient_estimators = true /\
+  map (fun c => res c "predict_proba") gradient_estimators =
+    map (fun c => Some (if String.eqb c "KernelRIM" then "KernelRIM" else "DiscriminativeModel")%string) gradient_estimators /\
+  map (fun c => res c "fit") gradient_estimators =
+    map Some ["DiscriminativeModel"; "DiscriminativeModel"; "DiscriminativeModel"; "DiscriminativeModel"; "KernelRIM";
+              "DiscriminativeModel"; "DiscriminativeModel"; "DiscriminativeModel";
+              "SparseLinearModel"; "SparseLinearModel"; "SparseLinearModel"; "SparseMLPModel"; "SparseMLPModel";
+              "DiscriminativeModel"; "DiscriminativeModel"; "DiscriminativeModel"; "DiscriminativeModel"]%string /\
+  map (res "Kauri") ["fit"; "fit_predict"; "predict"; "score"]%string = [Some "Kauri"; Some "Kauri"; Some "Kauri"; Some "Kauri"]%string.
+Proof. exact resolution_table. Qed.
+
+(* end to end over the reals, from the regenerated bodies alone: predict_proba returns probability vectors of length K, predict their
+   first arg-max inside [0, K), and the labels_ written by fit are predict on the training data *)
+Theorem C04_regenerated_end_to_end : forall (A : Type) K (p : params) (h : hyper) (gemini : @Mat R -> A -> R) affinity kern ntrain d X y, (1 <= K)%nat ->
+  exists P l,
+    run_predict_proba Rops K p h gemini affinity kern ntrain base_predict_proba (VMat d X) = VMat K P /\
+    run_predict Rops K p h gemini affinity kern ntrain base_predict_proba base_predict (VMat d X) = VLabels l /\
+    attr_after "labels_" (run_fit Rops K p h gemini affinity kern ntrain base_fit_pre base_fit_post (VMat d X) y) = VLabels l /\
+    (forall i, (forall k, 0 < P i k) /\ rsum K (P i) = 1 /\ l i = argmax_row Rops K (P i) /\ (l i < K)%nat /\
+               (forall k, (k < K)%nat -> P i k <= P i (l i))).
+Proof.
+  intros A K p h gemini affinity kern ntrain d X y HK.
+  exists (predict_proba Rops K p X), (predict Rops K p X).
+  split; [apply gen_predict_proba|]. split; [apply gen_predict|].
+  split; [apply (gen_fit Rops K p h gemini affinity kern ntrain d X y)|].
+  intros i. destruct (proba_is_probability_vector K p X i HK) as (Hp & Hs & _).
+  split; [exact Hp|]. split; [exact Hs|]. split; [reflexivity|].
+  split; [apply labels_in_range; exact HK | apply (predict_most_probable K p X i HK)].
+Qed.
+
+(* drift detector: the regenerated bodies and class table are exactly the ones the model was written against *)
+Theorem C04_regenerated_rules_are_documented :
+  base_fit_predict = [SReturn (EAttr (ESelfCall "fit" [EVar "X"; EVar "y"]) "labels_")] /\
+  base_predict_proba = [SExpr (ECall "check_is_fitted" [ESelf]); SReturn (ESelfCall "_infer" [ECall "check_array" [EVar "X"]; EKw "retain" (EBool false)])] /\
+  base_predict = [SExpr (ECall "check_is_fitted" [ESelf]); SReturn (EArgmax (ESelfCall "predict_proba" [ECall "check_array" [EVar "X"]]) 1%Z)] /\
+  base_score = [SReturn (EItem (EApply (ESelfCall "get_gemini" []) [ESelfCall "predict_proba" [EVar "X"];
+                                        EMeth (ESelfCall "get_gemini" []) "compute_affinity" [EVar "X"; EVar "y"]]))] /\
+  base_fit_pre = [SExpr (ESelfCall "_validate_params" []);
+                  SExpr (ESelfCall "_init_params" [ECall "check_random_state" [ESelfAttr "random_state"]; VD]);
+                  SIf (EEq (ESelfAttr "solver") (EStr "sgd"))
+                    [SSetAttr "optimiser_" (ECall "SGDOptimizer" [ESelfCall "_get_weights" []; ESelfAttr "learning_rate"])]
+                    [SSetAttr "optimiser_" (ECall "AdamOptimizer" [ESelfCall "_get_weights" []; ESelfAttr "learning_rate"])]] /\
+  base_fit_loop_reads = [("X", VD); ("affinity", EMeth (ESelfCall "get_gemini" []) "compute_affinity" [VD; EVar "y"]);
+                         ("random_state", ECall "check_random_state" [ESelfAttr "random_state"]); ("gemini", ESelfCall "get_gemini" []);
+                         ("weights", ESelfCall "_get_weights" [])]%string /\
+  base_fit_epochs = ECall "range" [ESelfAttr "max_iter"] /\
+  base_fit_post = [SSetAttr "labels_" (EArgmax (ESelfCall "_infer" [VD]) 1%Z); SSetAttr "n_iter_" (ESelfAttr "max_iter"); SReturn ESelf] /\
+  krim_fit = [SExpr (ESelfCall "_validate_params" []); SSetAttr "input_data_" (ECall "check_array" [EVar "X"]);
+              SSetAttr "training_kernel_" (ESelfCall "_compute_kernel" [ECall "check_array" [EVar "X"]]);
+              SExpr (ESuperCall "fit" [ESelfAttr "training_kernel_"; EVar "y"]);
+              SSetAttr "n_features_in_" (EIndex (EAttr (ECall "check_array" [EVar "X"]) "shape") 1%Z); SReturn ESelf] /\
+  krim_predict_proba = [SReturn (ESelfCall "_infer" [ESelfCall "_compute_kernel" [EVar "X"]])] /\
+  sparse_linear_fit = golden_sparse_fit /\ sparse_mlp_fit = golden_sparse_fit /\
+  kauri_fit_predict = [SReturn (EAttr (ESelfCall "fit" [EVar "X"; EVar "y"]) "labels_")] /\
+  kauri_predict = [SExpr (ECall "check_is_fitted" [ESelf]); SReturn (EMeth (ESelfAttr "tree_") "predict" [ECall "check_array" [EVar "X"]])] /\
+  kauri_score = [SReturn (ECall "gemini_objective" [ESelfCall "predict" [EVar "X"]; ESelfCall "_compute_kernel" [EVar "X"; EVar "y"]])] /\
+  kauri_fit_tail = [SSetAttr "labels_" (EArgmax (EMatMul (EVar "Y") (EVar "Z")) 0%Z); SSetAttr "leaves_" (EArgmax (EVar "Z") 0%Z); SReturn ESelf] /\
+  overrides = [("DiscriminativeModel", ["fit"; "fit_predict"; "predict_proba"; "predict"; "score"]); ("LinearModel", []); ("LinearMMD", []);
+               ("LinearWasserstein", []); ("RIM", []); ("KernelRIM", ["fit"; "predict_proba"]); ("MLPModel", []); ("MLPMMD", []);
+               ("MLPWasserstein", []); ("SparseLinearModel", ["fit"]); ("SparseLinearMMD", []); ("SparseLinearMI", []);
+               ("SparseMLPModel", ["fit"]); ("SparseMLPMMD", []); ("CategoricalModel", []); ("CategoricalMMD", []);
+               ("CategoricalWasserstein", []); ("Douglas", []); ("Tree", ["predict"]); ("Kauri", ["fit"; "fit_predict"; "predict"; "score"])]%string.
+Proof. exact regenerated_rules_are_documented. Qed.
+
 (* non-vacuity: the hypotheses (K >= 1, k < K, an accepted solver) are met by a concrete non-trivial row of
    K = 3 logits with a tie between the last two entries: the first maximiser is chosen, its probability
    lies strictly between 0 and 1, and "sgd" selects the SGD optimiser *)
@@ -143,3 +290,11 @@ Print Assumptions C04_score_is_gemini_of_proba.
 Print Assumptions C04_n_iter_is_max_iter.
 Print Assumptions C04_optimiser_matches_solver.
 Print Assumptions C04_kauri_labels_lt_max_clusters.
+Print Assumptions C04_regenerated_predict_chain.
+Print Assumptions C04_regenerated_kernelrim_predict_chain.
+Print Assumptions C04_regenerated_fit.
+Print Assumptions C04_regenerated_wrapped_fits.
+Print Assumptions C04_regenerated_kauri.
+Print Assumptions C04_regenerated_method_resolution.
+Print Assumptions C04_regenerated_end_to_end.
+Print Assumptions C04_regenerated_rules_are_documented.
